@@ -129,13 +129,12 @@ def run(prop, tier, seed):
                 its = [i for i in its if i["all"]][::3] + [i for i in its if not i["all"]][::7]
                 sess = record_events(its, work, name="sess", script="interactive.py")
                 sess_done = [s_ for s_ in sess if s_["events"] and s_["events"][-1]["ev"] == "Return"]
-                acc, rej = interactive16.validate(c, sess_done, work, True, "builder-sessions")
-                acc2, rej2 = interactive16.validate(c, sess_done, work, False, "builder-sessions-nopattern")
-                for t in sorted(set(rej) - acc):
-                    if t in acc2:      # rejected only because of the pattern clause
-                        s_ = sess_done[t - 1]
-                        c.violation("C08|builder-return-violates-official-pattern|v%s" % s_["bver"],
-                                    "ask_interactively(%s, all=%s) returned %s" % (s_["bver"], s_["all"], s_["events"][-1]["value"]), {"session": s_})
+                bver_map = {"2": ("2", -1), "3.0": ("3", 0), "3.1": ("3", 1), "4.0": ("4", -1)}
+                bitems = [{"op": "construct", "ver": bver_map[s_["bver"]][0], "s": s_["events"][-1]["value"], "json": False} for s_ in sess_done]
+                bobs = record_events(bitems, work, name="bret")
+                bev = [{"op": "builder", "ver": bver_map[s_["bver"]][0], "minor": bver_map[s_["bver"]][1], "value": s_["events"][-1]["value"],
+                        "bver": s_["bver"], "all": s_["all"], "lib_accepts": o["out"]["cls"] == "ok"} for s_, o in zip(sess_done, bobs)]
+                judge(c, prop, bev, work, "builder-returns", keyfn=lambda e, what: "C08|%s|v%s" % (what, e.get("bver", e.get("ver"))))
                 c.traces += len(sess_done)
                 c.extra["builder_sessions_checked"] = len(sess_done)
             c.nontrivial = len(set(e["s"] for e in ev))
